@@ -17,6 +17,8 @@ Context {V : Type} (o : ops V).
 
 Lemma tie_sum a b c : g_sum o a b c = r_sum o a b c.
 Proof. unfold g_sum, r_sum; tie. Qed.
+Lemma tie_nullsum a b c : g_nullsum o a b c = r_nullsum o a b c.
+Proof. unfold g_nullsum, r_nullsum; tie. Qed.
 Lemma tie_nansum a b c : g_nansum o a b c = r_nansum o a b c.
 Proof. unfold g_nansum, r_nansum; tie. Qed.
 Lemma tie_nansum_squares a b c : g_nansum_squares o a b c = r_nansum_squares o a b c.
